@@ -548,6 +548,70 @@ pub fn run(rep: &mut Rep) {
             }
         }
     }
+    // ---- the shortest packets (2-4 bytes), every byte value in their last position, each in a read of its own with
+    // nothing behind it: a complete packet in the buffer is handed out whatever its bytes look like
+    {
+        rep.note("shortest packets alone: PUBACK / PUBREC / PUBCOMP (remaining length 2) for packet identifiers whose low byte sweeps 0x00..0xff (hook H2), PUBREL likewise, server DISCONNECT with a 1-byte reason >= 0x80, each delivered in a read of its own and, for comparison, followed by a PINGRESP in the same read");
+        for hi in [0u16, 0x80] {
+            for lo_base in (0..256u16).step_by(8) {
+                for follow in [false, true] {
+                    let id = format!("tiny:{hi}:{lo_base}:{}", follow as u8);
+                    idx += 1;
+                    if !rep.take(idx, &id) {
+                        continue;
+                    }
+                    let first = ((hi << 8) | lo_base).max(1);
+                    let mut w = World::boot(WorldCfg { seed: rep.seed, seed_ids: Some((first, 1)), ..Default::default() });
+                    let mut ops = Vec::new();
+                    for j in 0..8usize {
+                        ops.push(w.start(j % 2, if j % 2 == 0 { Kind::Pub1 } else { Kind::Pub2 }));
+                        w.settle_check();
+                    }
+                    for &i in &ops {
+                        if !w.ackable().contains(&(i, 1)) {
+                            continue;
+                        }
+                        if follow {
+                            w.start(0, Kind::Ping);
+                            w.settle_check();
+                            w.sim.capture = Some(Vec::new());
+                            w.deliver_ack(i, 1, 0, 0);
+                            w.pingresp();
+                            let b = w.sim.capture.take().unwrap();
+                            w.sim.feed(&b);
+                        } else {
+                            w.deliver_ack(i, 1, 0, 0);
+                        }
+                        w.settle_check();
+                        if w.ackable().contains(&(i, 2)) {
+                            w.deliver_ack(i, 2, 0, 0);
+                            w.settle_check();
+                        }
+                    }
+                    for j in 0..8u16 {
+                        w.in_pubrel(first.wrapping_add(j).max(1));
+                        w.settle_check();
+                    }
+                    if lo_base % 16 == 0 {
+                        w.server_disconnect(0x8b, 1, false);
+                        w.settle_check();
+                    }
+                    finish(&mut w);
+                    rep.add("evaluations", 1);
+                    rep.add("shortest_packet_cases", 1);
+                    rep.distinct(&("tiny", hi, lo_base, follow));
+                    for v in w.viols.iter_mut() {
+                        if !v.props.contains(&"C03") && !v.props.contains(&"*") {
+                            v.props = &["C03"];
+                            v.sig = format!("C03/wrong-behaviour-under-chunking/{}", v.sig);
+                        }
+                    }
+                    harvest(rep, &mut w, &id);
+                    add_counters(rep, &w);
+                }
+            }
+        }
+    }
     // ---- long runs of small packets: hundreds of packets consumed back to back without the transport ever running dry
     {
         let ns: Vec<usize> = if rep.quick() { vec![100, 129, 300, 1100] } else { vec![64, 65, 127, 128, 129, 130, 255, 256, 257, 300, 513, 1025, 5000] };
